@@ -1,8 +1,10 @@
 import CJ.Drv.Loop
 import CJ.Drv.Phantom
 import CJ.Drv.PhantomPort
+import CJ.Drv.PhantomLoad
 /-! Driver for C14: phantom selection (all selector generations, station / client / frozen clients),
-`crypto/rand.Int` and `binary.Varint` on their own; the station's destination-port decision. -/
+`crypto/rand.Int` and `binary.Varint` on their own; the station's destination-port decision; the subnet
+file's loop in front of the selection. -/
 open CJ.Drv
 
 def main : IO Unit := runDriver fun
@@ -11,4 +13,5 @@ def main : IO Unit := runDriver fun
   | "randint" :: args => Phantom.handleRandInt args
   | "varint" :: args => Phantom.handleVarint args
   | "dstport" :: args => PhantomPort.handle args
+  | "load" :: args => PhantomLoad.handle args
   | _ => none
